@@ -161,21 +161,6 @@ func init() {
 	reg("net/http.NewRequestWithContext", func(g *G, fr *Frame, fn *ssa.Function, a []Value) Value {
 		return newReq(g, a[0], a[1], a[2], a[3])
 	})
-	reg("(*net/http.Client).Do", func(g *G, fr *Frame, fn *ssa.Function, a []Value) Value {
-		g.model("http.Client.Do = Transport.RoundTrip (no redirects, cookies or timeouts)")
-		cp, _ := a[0].(*Value)
-		if cp == nil {
-			g.goPanic("runtime error: invalid memory address or nil pointer dereference (nil *http.Client)")
-		}
-		ct := g.run.P.NamedType("net/http", "Client")
-		tr, _ := fieldByName(ct, (*cp).(Struct), "Transport").(Iface)
-		if tr.T == nil {
-			g.inconclusive("http.Client without a harness transport (real network)")
-		}
-		rt := g.findMethod(tr.T, "RoundTrip")
-		res := g.callFn(&Closure{Fn: rt}, []Value{tr.V, a[1]}, g.top, token.NoPos).(Tuple)
-		return res
-	})
 }
 
 func init() {
@@ -261,6 +246,41 @@ func init() {
 		*resp = g.mkStruct(respT, map[string]Value{"StatusCode": st, "Status": S(http.StatusText(int(st.C))), "Body": body, "Header": &MapV{KT: types.Typ[types.String]}})
 		return Tuple{resp, Iface{}}
 	}
+	reg("(*net/http.Client).Do", func(g *G, fr *Frame, fn *ssa.Function, a []Value) Value {
+		g.model("http.Client.Do = Transport.RoundTrip (no redirects, cookies or timeouts)")
+		cp, _ := a[0].(*Value)
+		if cp == nil {
+			g.goPanic("runtime error: invalid memory address or nil pointer dereference (nil *http.Client)")
+		}
+		ct := g.run.P.NamedType("net/http", "Client")
+		tr, _ := fieldByName(ct, (*cp).(Struct), "Transport").(Iface)
+		if tr.T == nil {
+			// no custom transport: the request is served in-process by the mounted handler, like http.Post
+			rp, _ := a[1].(*Value)
+			if rp == nil {
+				g.goPanic("runtime error: invalid memory address or nil pointer dereference (nil *http.Request)")
+			}
+			rqT := g.run.P.NamedType("net/http", "Request")
+			rq := (*rp).(Struct)
+			if m := concStr(g, fieldByName(rqT, rq, "Method")); m != "POST" {
+				g.inconclusive("http.Client.Do without a harness transport: method " + m)
+			}
+			u := g.urlNative(fieldByName(rqT, rq, "URL"))
+			var ctype Value = S("")
+			if hm, _ := fieldByName(rqT, rq, "Header").(*MapV); hm != nil {
+				if i := g.mapFind(hm, S("Content-Type")); i >= 0 {
+					if sl, _ := hm.Vals[i].(Slice); len(sl) > 0 {
+						ctype = sl[0]
+					}
+				}
+			}
+			g.model("http.Client.Do without a Transport = http.Post of the request's URL, Content-Type and body (other headers, ContentLength and the request context are not transmitted)")
+			return post(g, fr, fn, S(u.String()), ctype, fieldByName(rqT, rq, "Body"), fieldByName(ct, (*cp).(Struct), "Timeout"))
+		}
+		rt := g.findMethod(tr.T, "RoundTrip")
+		res := g.callFn(&Closure{Fn: rt}, []Value{tr.V, a[1]}, g.top, token.NoPos).(Tuple)
+		return res
+	})
 	reg("net/http.Post", func(g *G, fr *Frame, fn *ssa.Function, a []Value) Value {
 		return post(g, fr, fn, a[0], a[1], a[2], nil)
 	})
